@@ -742,6 +742,19 @@ pub fn eval_c18_long(item: &(usize, bool)) -> Eval {
     e
 }
 
+/// `eval_c18` with a state-level guard: a panic of the library in a call that is not guarded individually (an integral
+/// of an intermediate cell) is an observation about that state, not a harness crash.
+fn eval_c18_guarded(item: &(State, Vec<DVec3>)) -> Eval {
+    match guarded(|| eval_c18(item)) {
+        Ok(e) => e,
+        Err(p) => {
+            let mut e = Eval::default();
+            e.issue(format!("panic:{}", p.msg.chars().take(70).collect::<String>()), item.0.id.clone(), format!("a library call on a cell of this state panicked at {}: {}", p.site, p.msg), replay_text("c18", &item.0, &[]));
+            e
+        }
+    }
+}
+
 pub fn run_c18(run: &mut Run) {
     let thorough = run.thorough();
     THOROUGH.store(thorough, std::sync::atomic::Ordering::Relaxed);
@@ -765,7 +778,7 @@ pub fn run_c18(run: &mut Run) {
                 })
                 .collect();
             run.family(format!("3{}|{}|L3a K<={} x extra planes towards all unused lattice points", if periodic { "P" } else { "R" }, b.name, k), items.len() as u64);
-            run.explore(&items, eval_c18, |i| i.0.to_json());
+            run.explore(&items, eval_c18_guarded, |i| i.0.to_json());
             // generic pool: larger removed sets
             let gp = generic_points(b, 3);
             let kg = if thorough { 5 } else { 3 };
@@ -779,7 +792,7 @@ pub fn run_c18(run: &mut Run) {
                 })
                 .collect();
             run.family(format!("3{}|{}|G 2<=|S|<={} x extra planes towards all unused pool points", if periodic { "P" } else { "R" }, b.name, kg), items.len() as u64);
-            run.explore(&items, eval_c18, |i| i.0.to_json());
+            run.explore(&items, eval_c18_guarded, |i| i.0.to_json());
         }
     }
     // many-plane cells: a centre generator inside a shell of N generators (cells with > 64 clipping planes)
@@ -804,7 +817,7 @@ pub fn run_c18(run: &mut Run) {
             items.push((st, vec![]));
         }
         run.family("centre generator inside a shell of N generators (cells with more than 64 clipping planes), builder's own clip sequence".to_string(), items.len() as u64);
-        run.explore(&items, eval_c18, |i| J::s(i.0.id.clone()));
+        run.explore(&items, eval_c18_guarded, |i| J::s(i.0.id.clone()));
     }
     // large removed sets: an m-sided prism whose m top vertices are all removed by one clip (and the axis pair whose
     // shared face has m vertices): builder's own clip sequence, deviation-bounded storage orders
@@ -815,7 +828,7 @@ pub fn run_c18(run: &mut Run) {
             items.push((bigcell_state("axis", m, &boxes[0]), vec![]));
         }
         run.family("m-sided prism + neighbour above (one clip removes m vertices) and axis pair + ring of m (face with m vertices), builder's own clip sequence".to_string(), items.len() as u64);
-        run.explore(&items, eval_c18, |i| J::s(i.0.id.clone()));
+        run.explore(&items, eval_c18_guarded, |i| J::s(i.0.id.clone()));
     }
     // long clip histories of one cell (more than 2^16 clipping planes / boundary reconstructions)
     {
